@@ -127,9 +127,29 @@ class Shadow:
         return [k for k, r in self.e.items() if r["att"] and not r["dead"] and r["ok"] and (kind is None or r["kind"] == kind) and (ws is None or r["ws"] == ws)]
 
 
+def scripted():
+    """Deterministic scenarios (instance numbers are fixed by the constructor order)."""
+    out = []
+    # an object with data and a property group copied to the other workspace, that copy removed and dropped, copied again:
+    # the identifiers of the object, the data AND the property group are free again and must be kept
+    base = [{"op": "create", "ws": 0, "obj": True, "parent": 1, "u": None}, {"op": "data", "o": 5, "u": None},
+            {"op": "pg", "o": 5, "ds": [6], "u": None}, {"op": "copy", "e": 5, "t": 3}]
+    for mid in ([], [{"op": "list", "ws": 1, "k": "object"}], [{"op": "list", "ws": 1, "k": "data"}, {"op": "lookup", "ws": 1, "e": 9}]):
+        out.append({"ops": base + [{"op": "remove", "e": 9}, {"op": "die", "es": [9, 10, 11]}] + mid + [{"op": "copy", "e": 5, "t": 3}]})
+    out.append({"ops": base + [{"op": "remove", "e": 9}, {"op": "copy", "e": 5, "t": 3}]})  # not dropped: identifiers still in use
+    # a caller-supplied property-group identifier that collides with a live group of another object: refused, nothing written
+    two = [{"op": "create", "ws": 0, "obj": True, "parent": 1, "u": None}, {"op": "create", "ws": 0, "obj": True, "parent": 1, "u": None},
+           {"op": "data", "o": 5, "u": None}, {"op": "data", "o": 6, "u": None}, {"op": "pg", "o": 6, "ds": [8], "u": None}]
+    out.append({"ops": two + [{"op": "pg", "o": 5, "ds": [7], "u": {"same": 9}}, {"op": "lookup", "ws": 0, "e": 9}]})
+    out.append({"ops": two + [{"op": "pg", "o": 5, "ds": [7], "u": {"same": 9}}, {"op": "pg", "o": 5, "ds": [7], "u": None},
+                              {"op": "copy", "e": 5, "t": 3}]})
+    out.append({"ops": two + [{"op": "copy", "e": 6, "t": 3}, {"op": "pg", "o": 5, "ds": [7], "u": {"same": 9}}]})
+    return out
+
+
 def generate(rng, tier):
     n = 220 if tier == "quick" else 5000
-    return [random_history(rng) for _ in range(n)]
+    return scripted() + [random_history(rng) for _ in range(n)]
 
 
 def random_history(rng):
@@ -160,6 +180,9 @@ def random_history(rng):
     def uspec(kind, ws):
         if rng.chance(35):
             cands = [k for k, r in sh.e.items() if r["kind"] != "type"]
+            same = [k for k in cands if sh.e[k]["kind"] == kind]
+            if same and rng.chance(50):  # a collision inside the same registry (refusal when the owner is alive)
+                cands = same
             if cands:
                 src = pick(cands)
                 return {"same": src}, uid_owner[src]
@@ -239,11 +262,14 @@ def random_history(rng):
             ops.append({"op": "copy", "e": e, "t": t})
         elif r < 80:
             leaves = [k for k in sh.live() if k not in (1, 3) and sh.e[k]["kind"] in ("data", "object", "group")
-                      and not [c for c in sh.e[k]["children"] if sh.e[c]["att"]] and not sh.e[k]["inpg"]]
+                      and (sh.e[k]["kind"] == "object" or not [c for c in sh.e[k]["children"] if sh.e[c]["att"]])
+                      and not sh.e[k]["inpg"]]
             if not leaves:
                 continue
             e = pick(leaves)
             sh.e[e]["att"] = False
+            for c in sh.e[e]["children"]:  # an object goes with its data and property groups
+                sh.e[c]["att"] = False
             ops.append({"op": "remove", "e": e})
         elif r < 90:
             gone = [k for k, rr in sh.e.items() if not rr["att"] and not rr["dead"] and rr["kind"] != "type"]
@@ -393,6 +419,20 @@ def _observe(rec, wss, out):
     return ser
 
 
+def _stored_groups(h5, rep):
+    """(object, property group) pairs of the PropertyGroups entries stored under the object nodes (oracle only)."""
+    import uuid
+
+    base = h5[list(h5)[0]]
+    out = []
+    if "Objects" in base:
+        for u, node in base["Objects"].items():
+            if "PropertyGroups" in node:
+                for g in node["PropertyGroups"].keys():
+                    out.append([rep.get(uuid.UUID(u.strip("{}")), 995), rep.get(uuid.UUID(g.strip("{}")), 995)])
+    return sorted(out)
+
+
 def _flat(h5, rep):
     import uuid
 
@@ -461,7 +501,7 @@ def drive_one(case, work):
             need((ke == "data" and kt == "object") or (ke in ("group", "object") and kt == "group"))
         if t == "remove":
             need(op["e"] in tab and rec.kind[op["e"]] in ("group", "object", "data") and op["e"] not in (1, 3)
-                 and not getattr(tab[op["e"]], "children", []))
+                 and (rec.kind[op["e"]] == "object" or not getattr(tab[op["e"]], "children", [])))
         if t == "die":
             es = op["es"]
             need(all(k < len(rec.refs) and rec.kind[k] != "type" for k in es))
@@ -537,6 +577,10 @@ def drive_one(case, work):
             hold_new(n0)
             ser = _observe(rec, wss, out)
             res["per_op"].append(ser)
+            rep_now = {}
+            for k in range(len(rec.refs)):
+                rep_now.setdefault(rec.uid[k], k)
+            res.setdefault("stored_groups", []).append([_stored_groups(ws.geoh5, rep_now) for ws in wss])
         # the oracle's view (by instance number)
         res["uid_rep"] = []
         rep = {}
@@ -725,6 +769,10 @@ def oracle(case, obs):
                 stuck = [k for k in new if any(k in r["ch"] for r in insts)]
                 add("refused-creation-left-in-parent" if stuck else "refused-changed-state",
                     f"op {i} {op}: refused, yet instances {stuck} stay in a parent's children / state changed")
+        # ---- a refused request leaves the file alone (PropertyGroups entries under the object nodes)
+        sg = obs.get("stored_groups")
+        if o["out"] == 1 and sg and i > 0 and sg[i] != sg[i - 1]:
+            add("refused-creation-written-to-file", f"op {i} {op}: refused, yet the stored property groups changed: {sg[i - 1]} -> {sg[i]}")
         # ---- look-up returns the owner
         if t == "lookup" and prev is not None:
             e = op["e"]
